@@ -12,6 +12,11 @@ Decided clauses:
        before `>> k` reads its carry makes the final reduction dead code.
   R4.5 branch-free selects `x ^ ((x ^ y) & mask)` in the Poly1305 units choose between the two values they
        mix (the final "h or h - p" selection limb by limb).
+  R4.6 (E13, peeled paths) in the hash / MAC / KDF units no store is overwritten before it can be read: in
+       padding and finalisation code every stored byte is part of the padded block (the 0x01 terminator of
+       the last Poly1305 block, the 0x80 of SHA-2, BLAKE2b's zero fill).
+  R4.7 the BLAKE2b KDF hands (key, salt = LE64(subkey_id) || 0^8, personal = the caller's 8 context bytes copied
+       verbatim || 0^8, outlen = subkey_len, empty message) to the keyed hash.
 NOT decided: digest values, chunking associativity, the values of the Poly1305 carries, HKDF chaining.
 """
 from .. import terms as T
@@ -96,3 +101,58 @@ def run(ctx, chk):
     knownbits.dead_carry_rule(prog, chk, "R4.4", ("crypto_onetimeauth/poly1305/",), floor=20)
     # ---- R4.5 ---------------------------------------------------------------------------------------------------
     knownbits.select_idiom_rule(prog, chk, "R4.5", ("crypto_onetimeauth/poly1305/",), floor=3)
+    # ---- R4.6 ---------------------------------------------------------------------------------------------------
+    from .. import deadstore
+    deadstore.dead_store_rule(prog, chk, "R4.6", ("crypto_onetimeauth/", "crypto_auth/", "crypto_hash/", "crypto_generichash/",
+                                                  "crypto_shorthash/", "crypto_kdf/"), floor=100)
+    # ---- R4.7 KDF: subkey id as salt, context as personalisation ---------------------------------------------------------
+    kdf = prog.need("crypto_kdf_blake2b_derive_from_key", rule="R4.7")
+    ctxb = K("crypto_kdf_blake2b_CONTEXTBYTES")
+    n47 = 0
+    COPY = ("memcpy", "llvm.memcpy", "memmove", "llvm.memmove")
+    FILL = ("memset", "llvm.memset")
+    for p in cm.paths(prog, kdf):
+        for e in p.calls("crypto_generichash_blake2b_salt_personal"):
+            n47 += 1
+            salt, pers = T.root(e.args[6]), T.root(e.args[7])
+            why = []
+            if not (e.args[0] == ("arg", 0) and e.args[1] == ("arg", 1) and e.args[4] == ("arg", 4) and e.args[5] == C(K("crypto_kdf_blake2b_KEYBYTES"), 64)
+                    and e.args[3] == C(0, 64)):
+                why.append("output / key / empty-message arguments are not (subkey, subkey_len, NULL, 0, key, KEYBYTES)")
+
+            def writers(root):
+                return [w for w in p.events[:e.idx] if w.kind in ("store", "call") and cm.writes_through(prog, p, w, root)]
+            # personalisation = the caller's 8 context bytes, verbatim, then zeros
+            got_ctx = got_zero = False
+            for w in writers(pers):
+                nm = (w.callee_name() or "") if w.kind == "call" else ""
+                if nm.startswith(COPY) and w.args[0] == e.args[7] and w.args[1] == ("arg", 3) and w.args[2] == C(ctxb, 64):
+                    got_ctx = True
+                elif nm.startswith(FILL) and w.args[1][0] == "c" and w.args[1][1] == 0:
+                    got_zero = True
+                elif w.kind == "store" and w.val[0] == "c" and w.val[1] == 0:
+                    got_zero = True
+                else:
+                    why.append("personalisation buffer written by %s at %s (not a byte-exact copy of ctx[0..%d) / zero fill)"
+                               % (nm or "a store", kdf.loc(w.iid), ctxb))
+            if not (got_ctx and got_zero):
+                why.append("personalisation is not memcpy(ctx, %d) followed by zero padding" % ctxb)
+            # salt = subkey_id as 8 little-endian bytes, then zeros
+            got_id = got_zero = False
+            for w in writers(salt):
+                nm = (w.callee_name() or "") if w.kind == "call" else ""
+                if nm == "store64_le" and w.args[0] == e.args[6] and w.args[1] == ("arg", 2):
+                    got_id = True
+                elif nm.startswith(COPY) and w.args[0] == e.args[6] and w.args[2] == C(8, 64):
+                    got_id = True       # native little-endian: memcpy(salt, &subkey_id, 8)
+                elif (nm.startswith(FILL) and w.args[1][0] == "c" and w.args[1][1] == 0) or (w.kind == "store" and w.val[0] == "c" and w.val[1] == 0):
+                    got_zero = True
+                elif w.kind == "store" and T.linear(w.addr) == ({salt: 1}, 0) and w.val == ("arg", 2):
+                    got_id = True
+                else:
+                    why.append("salt buffer written by %s at %s" % (nm or "a store", kdf.loc(w.iid)))
+            if not (got_id and got_zero):
+                why.append("salt is not LE64(subkey_id) followed by zero padding")
+            chk.ob("R4.7", kdf, "subkey = BLAKE2b(key, salt = LE64(subkey_id) || 0^8, personal = ctx[0..%d) || 0^8, outlen = subkey_len)" % ctxb,
+                   not why, loc=kdf.loc(e.iid), detail="; ".join(why), path=p if why else None, key="R4.7 crypto_kdf_blake2b_derive_from_key")
+    chk.floor("R4.7", "BLAKE2b hand-overs in crypto_kdf_blake2b_derive_from_key", n47, 1)
